@@ -13,13 +13,16 @@ Notation state := (state S).
 Notation step := (step S tr tr_event c ispadding).
 Notation run := (run S tr tr_event c ispadding).
 
-(* the list of load_buffer results an input yields: only the last one is FINAL, every load carries
-   at least one block, and the block list matches the count (what loads_of produces, see C01/C02) *)
+(* the list of load_buffer results an input yields: only the last one can be FINAL, every load carries
+   at least one block, and the block list matches the count (what loads_of produces, see C01/C02).
+   The list may be empty (decryption of an empty body: the first load is NODATA) and may end without a
+   FINAL load (decryption of a body that is not a whole number of blocks: the fragment is NODATA) *)
 Definition wf_load (l : load) : Prop :=
   1 <= ld_total l /\ length (blocks16_of (ld_data l)) = ld_total l.
 Definition wf_loads (ls : list load) : Prop :=
-  ls <> [] /\ Forall wf_load ls /\
-  (forall i, i < length ls -> ld_final (nth i ls {| ld_data := []; ld_total := 0; ld_final := false |}) = (Datatypes.S i =? length ls)).
+  Forall wf_load ls /\
+  (forall i, i < length ls -> ld_final (nth i ls {| ld_data := []; ld_total := 0; ld_final := false |}) = true ->
+             Datatypes.S i = length ls).
 
 Definition reachable (T : nat) (sigma0 : list S) (ls : list load) (s : state) : Prop :=
   exists sched, run (init S T sigma0 ls) sched = Some s.
